@@ -335,6 +335,14 @@ func c14(r *ev.Run) {
 				if c.Name == "sort" && rnd.Intn(2) == 0 {
 					args = append(args, []byte("STORE"), sameSlotKey(rnd, args[1]))
 				}
+				if (c.Name == "georadius" || c.Name == "georadiusbymember") && rnd.Intn(4) != 0 {
+					// the storing forms of an otherwise read-only looking command, in any letter case and behind another option
+					if rnd.Intn(2) == 0 {
+						args = append(args, []byte("COUNT"), []byte("3"))
+					}
+					opt := []string{"STORE", "STOREDIST", "storedist", "StoreDist", "store"}[rnd.Intn(5)]
+					args = append(args, []byte(opt), sameSlotKey(rnd, args[1]))
+				}
 				if _, err := conn.Do(20*time.Second, args...); err != nil {
 					r.Violation("C14:no-reply", "no reply for command "+c.Name, map[string]interface{}{"sent": argStrings(args), "error": err.Error()})
 					conn.Close()
@@ -371,6 +379,7 @@ func c14(r *ev.Run) {
 		cl.Close()
 	}
 	c14RefreshStorm(r)
+	c14StrategyUpdate(r)
 	r.Require("gate_must_reject", 300)
 	r.Require("arrivals_judged", 300)
 	r.Require("arrivals_at_replicas", 20)
@@ -488,4 +497,129 @@ func c14RefreshStorm(r *ev.Run) {
 	}
 	r.Require("storm_refreshes_during_traffic", 20)
 	r.Require("storm_arrivals_judged", 1000)
+}
+
+// c14StrategyUpdate: the read strategy is also delivered at run time (service config update). After an update to MASTER has been
+// applied, no read may arrive at a replica any more; writes never arrive at replicas whatever the history of strategies.
+func c14StrategyUpdate(r *ev.Run) {
+	s, err := startSUT(r, false, 60000, 20)
+	if err != nil {
+		r.Internal("start sut: %v", err)
+		return
+	}
+	defer s.Close()
+	rnd := rand.New(rand.NewSource(r.Seed + 314))
+	type step struct{ from, to predis.ReadStrategy }
+	steps := []step{{predis.ReadStrategy_REPLICA, predis.ReadStrategy_MASTER}, {predis.ReadStrategy_BOTH, predis.ReadStrategy_MASTER},
+		{predis.ReadStrategy_MASTER, predis.ReadStrategy_REPLICA}, {predis.ReadStrategy_MASTER, predis.ReadStrategy_BOTH}}
+	for _, st := range steps {
+		cl, err := fakecluster.New(3, 1+rnd.Intn(2))
+		if err != nil {
+			r.Internal("fakecluster: %v", err)
+			return
+		}
+		layout := randomLayout(rnd, cl)
+		cl.LogArgs = false
+		var mu sync.Mutex
+		current := st.from // the strategy every request issued from now on is subject to
+		armed := false
+		replicaReads := map[string]int{}
+		cl.OnEvent = func(e *fakecluster.Event) {
+			if e.Cmd == "cluster" || e.Cmd == "readonly" || e.Cmd == "asking" {
+				return
+			}
+			key, ok := fakecluster.KeyOf(e.Cmd, e.Args)
+			if !ok {
+				return
+			}
+			mu.Lock()
+			cur, on := current, armed
+			if on && e.Replica {
+				replicaReads[cur.String()]++
+			}
+			mu.Unlock()
+			if !on {
+				return
+			}
+			owner := cl.Nodes[0].OwnerLocked(fakecluster.Slot(key))
+			recv := cl.Nodes[e.Node]
+			write := canModify(e.Cmd, e.Args)
+			r.Count("strategy_update_arrivals_judged", 1)
+			w := map[string]interface{}{"arrived": argStrings(e.Args), "started_with": st.from.String(), "updated_to": st.to.String(), "in_force": cur.String(), "receiver": e.Node, "layout": layout}
+			switch {
+			case write && (e.Replica || recv != owner):
+				r.Violation("C14:write-not-at-owning-master-after-strategy-update:"+e.Cmd, fmt.Sprintf("%s was sent to node %d (replica=%v); owner is node %d", e.Cmd, e.Node, e.Replica, owner.Idx), w)
+			case !write && e.Replica && cur == predis.ReadStrategy_MASTER:
+				r.Violation("C14:replica-read-under-MASTER-after-strategy-update:"+e.Cmd, "the service was started with read strategy "+st.from.String()+" and updated to MASTER at run time, and a read still arrived at a replica", w)
+			case !write && e.Replica && recv.Master() != owner:
+				r.Violation("C14:read-at-foreign-replica-after-strategy-update:"+e.Cmd, "a read arrived at a replica of another master", w)
+			}
+		}
+		svc, err := startRedisSvc(s, cl, cl.Addrs(), RedisOpts{ReadStrategy: st.from})
+		if err != nil {
+			cl.Close()
+			r.Internal("%v", err)
+			return
+		}
+		if !svc.WaitRouting(1, 10*time.Second) {
+			cl.Close()
+			r.Internal("routing table never loaded")
+			return
+		}
+		conn, err := svc.Dial()
+		if err != nil {
+			cl.Close()
+			r.Internal("dial: %v", err)
+			return
+		}
+		traffic := func(n int) {
+			for i := 0; i < n; i++ {
+				k := fmt.Sprintf("su.%d", rnd.Intn(3000))
+				switch rnd.Intn(4) {
+				case 0:
+					conn.DoS(20*time.Second, "SET", k, "v")
+				case 1:
+					conn.DoS(20*time.Second, "HSET", k+".h", "f", "v")
+				case 2:
+					conn.DoS(20*time.Second, "HGETALL", k+".h")
+				default:
+					conn.DoS(20*time.Second, "GET", k)
+				}
+			}
+		}
+		mu.Lock()
+		armed = true
+		mu.Unlock()
+		traffic(300)
+		// quiescent (request / reply on one connection), then the update; it is applied when the control call returns
+		o := svc.Opts
+		o.ReadStrategy = st.to
+		if err := s.ConfigUpdate(svc.Name, redisConfigJSON(svc.Port, o)); err != nil {
+			r.Internal("config_update: %v", err)
+			conn.Close()
+			cl.Close()
+			return
+		}
+		mu.Lock()
+		current = st.to
+		mu.Unlock()
+		traffic(600)
+		conn.Close()
+		mu.Lock()
+		armed = false
+		rr := fmt.Sprintf("%v", replicaReads)
+		mu.Unlock()
+		r.Case("strategy-update/" + st.from.String() + "->" + st.to.String())
+		r.Count("strategy_updates_applied", 1)
+		if st == steps[0] {
+			r.Sample(map[string]interface{}{"strategy_update": st.from.String() + " -> " + st.to.String(), "reads_that_arrived_at_replicas_by_strategy_in_force": rr})
+		}
+		if st.from != predis.ReadStrategy_MASTER && replicaReads[st.from.String()] == 0 {
+			r.Inconclusive("no-replica-read-before-the-update:" + st.from.String()) // then the update to MASTER proves nothing
+		}
+		s.StopProc(svc.Name, 20*time.Second)
+		cl.Close()
+	}
+	r.Require("strategy_updates_applied", 4)
+	r.Require("strategy_update_arrivals_judged", 1500)
 }
